@@ -12,33 +12,26 @@ N = 0xFFFFFFFFFFFFFFFFFFFFFFFFFFFFFFFEBAAEDCE6AF48A03BBFD25E8CD0364141
 TRUSTED = []
 
 
-def _t(v):
-    """z3 term for a UF argument: ints, decimal strings of ints, byte/str sequences"""
-    if isinstance(v, models.SDecStr):
-        return v.t
-    if isinstance(v, str) and v.lstrip('-').isdigit():
-        return z3.IntVal(int(v))
-    if isinstance(v, (int, SInt, SBool)):
-        return int_term(v)
+def _norm(v):
+    """hex strings are identified with the bytes they denote; decimal strings with their integer"""
     if isinstance(v, SStr) and getattr(v, 'hex_src', None) is not None:
-        return v.hex_src.seq_term()           # a hex string is identified with the bytes it denotes
+        return v.hex_src
     if isinstance(v, str):
+        if v.lstrip('-').isdigit() and not (len(v) == 64):
+            return int(v)
         try:
             if len(v) % 2 == 0 and v == v.lower():
-                return ops.as_sseq(bytes.fromhex(v)).seq_term()
+                return bytes.fromhex(v)
         except ValueError:
             pass
-        return ops.as_sseq(v).seq_term()
-    if isinstance(v, (bytes, SBytes, SStr)):
-        return ops.as_sseq(v).seq_term()
-    raise Unsupported('UF argument %r' % (v,))
+    return v
 
 
 def uf(ctx, name, args, sort):
-    ts = [_t(a) for a in args]
-    f = z3.Function(name, *([t.sort() for t in ts] + [sort]))
+    sig, sorts, terms = models.uf_args([_norm(a) for a in args])
+    f = z3.Function('%s<%s>' % (name, sig), *(sorts + [sort]))
     ctx.ufs.add(name)
-    return f(*ts)
+    return f(*terms)
 
 
 def m_ecdsa_sign(ip, args, kwargs):
@@ -100,7 +93,7 @@ def m_der_decode(ip, args, kwargs):
     ctx = ip.ctx
     b = ops.as_sseq(args[0])
     t = z3.simplify(b.seq_term())
-    if z3.is_app(t) and t.decl().name() == 'der_encode':
+    if z3.is_app(t) and t.decl().name().startswith('der_encode<'):
         return (wrap_int(t.arg(0)), wrap_int(t.arg(1)))
     ok = uf(ctx, 'der_is_strict', [b], z3.BoolSort())
     if not ctx.branch(ok):
@@ -165,6 +158,7 @@ def install(reg):
     M[os.urandom] = m_urandom
     reg.sym_methods[RFCObj] = rfc_method
     reg.sym_methods[EntropyObj] = entropy_method
+    install_ec(reg)
 
 
 TRUSTED = ['fastecdsa._ecdsa.sign / verify implement standard secp256k1 ECDSA (uninterpreted: ecdsa_sign_r/s, ecdsa_verify)',
@@ -172,3 +166,129 @@ TRUSTED = ['fastecdsa._ecdsa.sign / verify implement standard secp256k1 ECDSA (u
            'fastecdsa DEREncoder encode/decode are strict DER and mutually inverse (uninterpreted)',
            'fastecdsa secp256k1.is_point_on_curve is the curve-membership predicate (uninterpreted)',
            'random.SystemRandom / os.urandom return fresh, unconstrained values on every call']
+
+
+# ---------------------------------------------------------------------------------------------------
+# secp256k1 group operations: spec.ec.* natively, uninterpreted functions here.  fastecdsa's point classes are
+# modelled by the same functions, so code and specification are compared modulo "whatever the group law is".
+
+PRIME = 2 ** 256 - 2 ** 32 - 977
+
+
+class PointObj(Sym):
+    """fastecdsa.point.Point / result of keys.ec_point"""
+    pytype = object
+
+    def __init__(self, x, y):
+        self.x, self.y = x, y
+
+
+def _pt_facts(ctx, x, y):
+    ctx.fact(z3.And(x >= 0, x < PRIME, y >= 0, y < PRIME))
+
+
+def sym_mul_g(ctx, k):
+    x = uf(ctx, 'ec_mulG_x', [k], z3.IntSort())
+    y = uf(ctx, 'ec_mulG_y', [k], z3.IntSort())
+    _pt_facts(ctx, x, y)
+    return wrap_int(x), wrap_int(y)
+
+
+def sym_add(ctx, p1, p2):
+    a = [p1[0], p1[1], p2[0], p2[1]]
+    x = uf(ctx, 'ec_add_x', a, z3.IntSort())
+    y = uf(ctx, 'ec_add_y', a, z3.IntSort())
+    _pt_facts(ctx, x, y)
+    return wrap_int(x), wrap_int(y)
+
+
+def m_spec_mul_g(ip, args, kwargs):
+    if isinstance(args[0], int):
+        from spec import ec
+        return ec.mul_g(args[0])
+    return sym_mul_g(ip.ctx, args[0])
+
+
+def m_spec_on_curve(ip, args, kwargs):
+    from pyvc.values import is_concrete
+    if is_concrete(args):
+        from spec import ec
+        return ec.on_curve(*args)
+    x, y = args[0]
+    return wrap_bool(uf(ip.ctx, 'on_curve', [x, y], z3.BoolSort()))
+
+
+def m_spec_add(ip, args, kwargs):
+    from pyvc.values import is_concrete
+    if is_concrete(args):
+        from spec import ec
+        return ec.add(*args)
+    return sym_add(ip.ctx, args[0], args[1])
+
+
+def m_get_public_key(ip, args, kwargs):
+    """fastecdsa.keys.get_public_key(d, curve): ASSUMED d*G"""
+    x, y = sym_mul_g(ip.ctx, args[0])
+    return PointObj(x, y)
+
+
+def m_point_ctor(ip, args, kwargs):
+    return PointObj(args[0], args[1])
+
+
+def point_attr(ip, obj, name):
+    if name in ('x', 'y'):
+        return getattr(obj, name)
+    raise Unsupported('Point.%s' % name)
+
+
+def point_binop(ip, op, a, b):
+    if op == 'Add' and isinstance(a, PointObj) and isinstance(b, PointObj):
+        x, y = sym_add(ip.ctx, (a.x, a.y), (b.x, b.y))
+        return PointObj(x, y)
+    raise Unsupported('point operation %s' % op)
+
+
+def m_hmac_new(ip, args, kwargs):
+    import hashlib
+    key, msg, dig = args[0], args[1] if len(args) > 1 else kwargs.get('msg'), args[2] if len(args) > 2 else kwargs.get('digestmod')
+    if dig is not hashlib.sha512:
+        raise Unsupported('hmac with digest %r' % (dig,))
+    return HmacObj(key, msg)
+
+
+class HmacObj(Sym):
+    pytype = object
+
+    def __init__(self, key, msg):
+        self.key, self.msg = key, msg
+
+
+def hmac_method(ip, obj, name, args, kwargs):
+    if name == 'digest':
+        return models.uf_bytes(ip.ctx, 'hmac_sha512', [obj.key, obj.msg], 64)
+    raise Unsupported('hmac.%s' % name)
+
+
+def install_ec(reg):
+    import hmac
+    from spec import ec
+    M = reg.models
+    M[ec.mul_g] = m_spec_mul_g
+    M[ec.add] = m_spec_add
+    M[ec.on_curve] = m_spec_on_curve
+    M[hmac.new] = m_hmac_new
+    try:
+        from fastecdsa import keys as fkeys, point as fpoint
+        M[fkeys.get_public_key] = m_get_public_key
+        M[fpoint.Point] = m_point_ctor
+    except ImportError:
+        pass
+    reg.sym_methods[HmacObj] = hmac_method
+    reg.sym_attrs[PointObj] = point_attr
+    reg.sym_binops.append(point_binop)
+
+
+TRUSTED += ['secp256k1 group operations (k*G, point addition) are uninterpreted; fastecdsa.keys.get_public_key / Point.__add__ are assumed '
+            'to compute them (spec/ec.py is the native reference used in replays)',
+            'hmac.new(key, msg, sha512).digest() is an uninterpreted 64-byte function of (key, msg)']
